@@ -501,6 +501,11 @@ impl ScriptBody {
         Some(ScriptBody { frames, remaining_data: n })
     }
 }
+impl Default for ScriptBody {
+    fn default() -> Self {
+        ScriptBody { frames: VecDeque::new(), remaining_data: 0 }
+    }
+}
 impl Body for ScriptBody {
     type Data = Bytes;
     type Error = std::convert::Infallible;
@@ -774,6 +779,9 @@ pub fn execute(case: &str) -> String {
     };
     if c.kind == "async" {
         return x::execute_async(&c);
+    }
+    if c.kind == "gsrv" {
+        return x::execute_gsrv(&c);
     }
     if c.calls.iter().any(|k| k.delay > 0 || k.bwait > 0 || k.hint > 0 || k.late) {
         return "bad-case".into();
@@ -1068,6 +1076,8 @@ impl std::error::Error for InnerErr {}
 
 /// The transport under the client-side interceptor: records the request, answers trailers-only.
 struct ClientMock {
+    /// show only the harness's own extension types (the generated client adds `GrpcMethod`)
+    known_only: bool,
     log: Log,
     calls: Arc<Mutex<usize>>,
     resps: Arc<Vec<(H, Vec<(u8, Vec<u8>)>)>>,
@@ -1089,7 +1099,7 @@ impl Service<http::Request<tonic::body::Body>> for ClientMock {
             version_tok(parts.version),
             hex(parts.uri.to_string().as_bytes()),
             show_headers(&parts.headers),
-            show_ext(&parts.extensions),
+            if self.known_only { show_ext_known(&parts.extensions) } else { show_ext(&parts.extensions) },
             drain(body)
         );
         self.log.lock().unwrap().push(line);
@@ -1163,13 +1173,14 @@ fn execute_client(case: &str) -> String {
     let calls = Arc::new(Mutex::new(0usize));
     let cur = Arc::new(Mutex::new(0usize));
     let resps = Arc::new(c.calls.iter().map(|k| (k.rhdrs.clone(), k.rext.clone())).collect::<Vec<_>>());
-    let shared = make_interceptor(c.scripts.clone(), log.clone(), false);
+    let generated = c.via == "gen";
+    let shared = make_interceptor(c.scripts.clone(), log.clone(), generated);
     // one client per origin would reset the interceptor; keep one service and re-wrap the
     // (cheaply cloneable) handle: InterceptedService is Clone when both parts are.
-    let mock = SharedMock(Arc::new(Mutex::new(ClientMock { log: log.clone(), calls: calls.clone(), resps, cur: cur.clone() })));
+    let mock = SharedMock(Arc::new(Mutex::new(ClientMock { known_only: generated, log: log.clone(), calls: calls.clone(), resps, cur: cur.clone() })));
     let svc: InterceptedService<SharedMock, SharedIcpt> = match c.via.as_str() {
-        "layer" => InterceptorLayer::new(shared).layer(mock),
-        _ => InterceptedService::new(mock, shared),
+        "layer" => InterceptorLayer::new(shared.clone()).layer(mock.clone()),
+        _ => InterceptedService::new(mock.clone(), shared.clone()),
     };
     for (idx, k) in c.calls.iter().enumerate() {
         *cur.lock().unwrap() = idx;
@@ -1191,14 +1202,42 @@ fn execute_client(case: &str) -> String {
             Some(h) => MetadataMap::from_headers(h),
             None => return "bad-case".into(),
         };
-        let mut client = tonic::client::Grpc::with_origin(svc.clone(), origin);
-        let mut req = tonic::Request::new(k.msg.clone());
-        *req.metadata_mut() = md;
-        *req.extensions_mut() = mk_ext(&k.ext);
-        let res = block_on(async {
-            client.ready().await.map_err(|_| Status::internal("not ready"))?;
-            client.server_streaming::<Vec<u8>, Vec<u8>, RawCodec>(req, path, RawCodec).await
-        });
+        let res = if generated {
+            // tonic-build's generated constructor and method: `HealthClient::with_interceptor(t, f).watch(req)`
+            use prost::Message;
+            let msg = match tonic_health::pb::HealthCheckRequest::decode(&k.msg[..]) {
+                Ok(m) if m.encode_to_vec() == k.msg => m,
+                _ => return "bad-case".into(),
+            };
+            if !k.prefix.is_empty() || k.opath != b"/" || k.oquery || k.path != b"/grpc.health.v1.Health/Watch" {
+                return "bad-case".into();
+            }
+            let mut client = tonic_health::pb::health_client::HealthClient::with_interceptor(mock.clone(), shared.clone());
+            let mut req = tonic::Request::new(msg);
+            *req.metadata_mut() = md;
+            *req.extensions_mut() = mk_ext(&k.ext);
+            block_on(async { client.watch(req).await }).map(|r| {
+                r.map(|resp| {
+                    let (md, _stream, ext) = resp.into_parts();
+                    format!("cok {} {}", show_headers(&md.into_headers()), show_ext(&ext))
+                })
+            })
+        } else {
+            let mut client = tonic::client::Grpc::with_origin(svc.clone(), origin);
+            let mut req = tonic::Request::new(k.msg.clone());
+            *req.metadata_mut() = md;
+            *req.extensions_mut() = mk_ext(&k.ext);
+            block_on(async {
+                client.ready().await.map_err(|_| Status::internal("not ready"))?;
+                client.server_streaming::<Vec<u8>, Vec<u8>, RawCodec>(req, path, RawCodec).await
+            })
+            .map(|r| {
+                r.map(|resp| {
+                    let (md, _stream, ext) = resp.into_parts();
+                    format!("cok {} {}", show_headers(&md.into_headers()), show_ext(&ext))
+                })
+            })
+        };
         let after = *calls.lock().unwrap();
         if after == before {
             log.lock().unwrap().push("noinner".into());
@@ -1207,10 +1246,7 @@ fn execute_client(case: &str) -> String {
         }
         let line = match res {
             None => "cpending".to_string(),
-            Some(Ok(resp)) => {
-                let (md, _stream, ext) = resp.into_parts();
-                format!("cok {} {}", show_headers(&md.into_headers()), show_ext(&ext))
-            }
+            Some(Ok(line)) => line,
             Some(Err(st)) => format!("cerr {}", show_status_fields(&st)),
         };
         log.lock().unwrap().push(line);
